@@ -11,6 +11,7 @@ mod driver;
 mod json;
 mod model;
 mod monitors;
+mod render;
 mod rng;
 mod snap;
 mod walker;
